@@ -2,6 +2,7 @@ import GraphSlam.Props.C09.Rn
 import GraphSlam.Props.C09.SE2
 import GraphSlam.Props.C09.SE3
 import GraphSlam.Props.C10.SE3Boxplus
+import GraphSlam.Props.C09.IAdd
 
 /-! C09 — umbrella: group laws for the four pose types (`PoseSE3_boxplus_eq_add_lift`, the box-plus clause for
 SE(3), lives in `Props/C10/SE3Boxplus.lean`). -/
